@@ -50,6 +50,12 @@ def hexByte (b : UInt8) : String :=
   String.ofList [Sha256.hexDigit (b.toNat / 16), Sha256.hexDigit (b.toNat % 16)]
 def hexBytes (bs : List UInt8) : String := String.join (bs.map hexByte)
 
+/-- decimal, or `0x…` / `-0x…` hex (how the harness sends huge ints) -/
+def parseInt (s : String) : Option Int :=
+  if s.startsWith "0x" then some (Int.ofNat (Sha256.hexToNat (s.drop 2).toString))
+  else if s.startsWith "-0x" then some (- Int.ofNat (Sha256.hexToNat (s.drop 3).toString))
+  else s.toInt?
+
 open Dds in
 partial def decVal (j : Json) : R PyVal := do
   let t ← fldStr j "t"
@@ -57,7 +63,7 @@ partial def decVal (j : Json) : R PyVal := do
   | "none" => pure .none
   | "bool" => pure (.bool (← fldBool j "v"))
   | "int" =>
-      match (← fldStr j "v").toInt? with
+      match parseInt (← fldStr j "v") with
       | some i => pure (.int i)
       | none => .error "bad int"
   | "float" => pure (.float (UInt64.ofNat (← fldNat j "v")))
